@@ -937,3 +937,107 @@ fn drop_rg_later_lock() {
     let _ = drop_rg_case(1);
     kani::cover!(true, "end");
 }
+
+// =========================================================================================
+// Helpers for the composite-operation step contracts (C10): force a real operation's state to `Done(res, flags)`
+// (what Completion::process/Shared::update leave behind after the final completion).
+// =========================================================================================
+pub(crate) fn force_done<R, A>(s: &State<Singleshot, R, A>, res: i32, flags: u32) {
+    let mut sh = crate::lock(&data_of(s).shared);
+    sh.status = Status::Done { results: Singleshot(cr(res, flags)) };
+    sh.waker = None;
+}
+pub(crate) fn status_any<R, A>(s: &State<Singleshot, R, A>) -> St {
+    status_of(s)
+}
+pub(crate) fn user_data_of<R, A>(s: &State<Singleshot, R, A>) -> u64 {
+    s.user_data()
+}
+pub(crate) fn resources_addr<R, A>(s: &State<Singleshot, R, A>) -> usize {
+    data_of(s).tail.resources.get().addr()
+}
+
+// =========================================================================================
+// op.fallback — the error mapper every operation's default fallback uses: EINVAL => ErrorKind::Unsupported,
+// every other error is returned unchanged (same errno).  Proved here once; other obligations replace it by the
+// identity through the cfg(kani) hook at its first line.
+// =========================================================================================
+#[kani::proof]
+#[kani::unwind(3)]
+fn op_fallback_other() {
+    let code: i32 = kani::any();
+    kani::assume(code >= 1 && code <= 4095 && code != libc::EINVAL);
+    let e = fallback(io::Error::from_raw_os_error(code));
+    assert!(e.raw_os_error() == Some(code), "errors other than EINVAL are passed through unchanged");
+    std::mem::forget(e);
+    kani::cover!(code == libc::EINTR, "EINTR");
+}
+
+// =========================================================================================
+// Contract of `poll` (singleshot) used by the composite-operation obligations (C10) in place of its body.
+// It encodes exactly what the op.poll.* obligations prove about the real poll_inner:
+//   NotStarted: one entry == fill_submission output + set_flags + own user_data queued (room) => Running, waker stored,
+//               Pending; queue full => still NotStarted, waker registered as blocked, Pending   [op.poll.not_started]
+//   Running   : Pending, most recent waker stored                                               [op.poll.running.*]
+//   Done, r>=0: Complete, resources moved out exactly once, Ready(Ok(map_ok(target, resources, (flags, r))))
+//                                                                                               [op.poll.done.ok]
+// Any other situation (negative results, restart) is outside the contract: the hook declines and the real body runs.
+// =========================================================================================
+pub(crate) fn poll_contract<T, O, R, A, Out>(
+    target: &T,
+    state: &mut State<O, R, A>,
+    ctx: &mut task::Context<'_>,
+    fill_submission: &impl Fn(&T, &mut R, &mut A, &mut Submission),
+    map_ok: &impl Fn(&T, R, OpReturn) -> Out,
+) -> Option<Poll<io::Result<Out>>>
+where
+    T: OpTarget,
+    O: OpResult,
+{
+    if unsafe { env::E.poll_contract } == 0 || O::IS_MULTISHOT {
+        return None;
+    }
+    let user_data = state.user_data();
+    let data = unsafe { state.data.as_mut() };
+    let mut shared = crate::lock(&data.shared);
+    match &mut shared.status {
+        Status::NotStarted => {
+            let submissions = target.sq().submissions();
+            let result = submissions.add(|submission| {
+                let resources = unsafe { data.tail.resources.get_mut().assume_init_mut() };
+                fill_submission(target, resources, &mut data.tail.args, submission);
+                target.set_flags(submission);
+                submission.0.user_data = user_data;
+            });
+            match result {
+                Ok(()) => {
+                    shared.waker = Some(ctx.waker().clone());
+                    shared.status = Status::Running { results: O::empty() };
+                }
+                Err(QueueFull) => {
+                    drop(shared);
+                    submissions.wait_for_submission(ctx.waker().clone());
+                }
+            }
+            Some(Poll::Pending)
+        }
+        Status::Running { .. } => {
+            set_waker(&mut shared.waker, ctx.waker());
+            Some(Poll::Pending)
+        }
+        Status::Done { results } => {
+            let r = results.next().unwrap();
+            // outside the contract: a harness that enables it must keep results non-negative (reported as a failure
+            // otherwise; the real body is deliberately NOT used as a fall-back so that its cost stays out of the cone)
+            assert!(r.result >= 0, "poll_contract used outside its precondition (negative result)");
+            shared.status = Status::Complete;
+            drop(shared);
+            let resources = unsafe { data.tail.resources.get().cast::<R>().read() };
+            Some(Poll::Ready(Ok(map_ok(target, resources, (r.flags, r.result as u32)))))
+        }
+        _ => {
+            assert!(false, "poll_contract used outside its precondition (Dropped/Complete)");
+            Some(Poll::Pending)
+        }
+    }
+}
